@@ -408,6 +408,7 @@ def case_paths(rep):
         # ---- reload after a mesh change (documented: mesh.update(points, callback=region.reload))
         A, t = gen.random_affine(rng, dim)
         vol0 = float(reg.dV.sum())
+        t = t * float(np.ptp(mesh.points, axis=0).max())  # translations in units of the body (it may be micrometres long already)
         mesh.update(points=mesh.points @ A.T + t, callback=reg.reload)
         run.compare(mon, "template=%s clause=reload-volume" % fam, abs(reg.dV.sum() - vol0 * np.linalg.det(A)) / (vol0 * np.linalg.det(A)), 1e-11,
                     "after mesh.update(callback=region.reload) the differential volumes do not measure the new geometry", unit="paths:reload", config=(fam, "reload"))
@@ -435,7 +436,7 @@ def case_paths(rep):
         #      every argument optional): shape functions, gradients and volumes must follow the new geometry
         A5, t5 = gen.random_affine(rng, dim)
         vol5 = float(reg.dV.sum())
-        mesh.points[:] = mesh.points @ A5.T + t5
+        mesh.points[:] = mesh.points @ A5.T + t5 * float(np.ptp(mesh.points, axis=0).max())
         reg.reload()
         run.compare(mon, "template=%s clause=bare-reload-volume" % fam, abs(reg.dV.sum() - vol5 * np.linalg.det(A5)) / (vol5 * np.linalg.det(A5)), 1e-11,
                     "after changing the points in place and region.reload() the differential volumes do not measure the new geometry",
